@@ -199,21 +199,3 @@ Definition field_is_auth (v : ver) (f : N) : bool :=
   end.
 (** fields 90.. change the signing context only (coins, hash type, index) *)
 Definition field_is_context (f : N) : bool := 90 <=? f.
-
-(** * v3 / v4 (ZIP 143 / ZIP 243): which single-field changes a signature hash must reflect.
-    [k] = 0 for the shielded sighash, otherwise the hash type of a transparent sighash for input
-    [idx]; [j] = position of the mutated element in its list. *)
-Definition v4_covers (f : N) (k : N) (idx j n_out : nat) : bool :=
-  let transparent := negb (k =? 0) in
-  let ht := if transparent then k else SIGHASH_ALL in
-  let own := transparent && Nat.eqb idx j in
-  match f with
-  | 1 | 2 => true
-  | 10 | 11 => negb (flag_acp ht) || own
-  | 12 => false
-  | 13 => (negb (flag_acp ht) && negb (flag_single ht) && negb (flag_none ht)) || own
-  | 20 | 21 => if flag_single ht then own && Nat.ltb idx n_out
-               else negb (flag_none ht)
-  | 35 | 49 => false
-  | _ => true
-  end.
